@@ -401,12 +401,11 @@ class Witness:
         for bi, blk in enumerate(area.blocks):
             for s in blk["stmts"]:
                 if s["k"] == "assign" and s["r"]["k"] == "use" and s["r"]["x"].get("str") in ("Less", "Equal"):
-                    labs = []
-                    for gb in cfg.pred[bi]:
-                        lab = ev.generic_edge(gb, area.blocks[gb]["term"], bi)
-                        if lab:
-                            labs.append(lab)
-                    res[s["r"]["x"]["str"]] = labs
+                    from .util import dominating_edge_labels
+                    from .gea import normalise_guards
+                    labs = [l for l in dominating_edge_labels(cfg, area, ev, bi) if "type_" in l]
+                    ng = normalise_guards(labs) or ()
+                    res[s["r"]["x"]["str"]] = ["%s%s(%s,%s)" % ("" if t else "!", k, a.rsplit("@", 1)[-1], b_) for k, a, b_, t in ng if a.endswith("type_")]
         return res
 
 
@@ -417,6 +416,9 @@ def build_and_extract(ctx):
     wdir = os.path.join(fdir, "witness")
     meta_f = os.path.join(wdir, "meta.json")
     facts_f = os.path.join(wdir, "hvwitness.lib.json")
+    ver = _version()
+    if os.path.exists(meta_f) and json.load(open(meta_f)).get("_version") != ver:
+        shutil.rmtree(wdir, ignore_errors=True)
     if os.path.exists(meta_f):
         meta = json.load(open(meta_f))
         if meta.get("error"):
@@ -427,7 +429,7 @@ def build_and_extract(ctx):
     try:
         src = w.build()
     except (WitnessError, TemplateError, KeyError, IndexError) as e:
-        meta = dict(w.meta, error="template recovery failed: %s: %s" % (type(e).__name__, e))
+        meta = dict(w.meta, error="template recovery failed: %s: %s" % (type(e).__name__, e), _version=ver)
         json.dump(meta, open(meta_f, "w"), ensure_ascii=False, indent=1)
         return None, meta, meta["error"]
     crate = os.path.join(wdir, "crate")
@@ -440,6 +442,7 @@ def build_and_extract(ctx):
     tdir = os.path.join(engine.CACHE, "target-witness")
     rc, out = engine._run_cargo_check(crate, tdir, wdir, "", "hvwitness", ["--lib"], os.path.join(wdir, "cargo.log"))
     meta = dict(w.meta)
+    meta["_version"] = ver
     meta["source_lines"] = src.count("\n")
     if rc != 0 or not os.path.exists(facts_f):
         errs = [l for l in out.splitlines() if l.startswith("error") or l.strip().startswith("-->")]
@@ -448,6 +451,16 @@ def build_and_extract(ctx):
         return None, meta, meta["error"]
     json.dump(meta, open(meta_f, "w"), ensure_ascii=False, indent=1)
     return _wfb(facts_f), meta, None
+
+
+def _version():
+    """the witness depends on the generator code in this package as well as on /repo"""
+    h = hashlib.sha256()
+    d = os.path.dirname(os.path.abspath(__file__))
+    for f in ("witness.py", "templates.py", "origin.py", "lang.py", "interp.py", "util.py", "gea.py"):
+        with open(os.path.join(d, f), "rb") as fh:
+            h.update(fh.read())
+    return h.hexdigest()[:16]
 
 
 def _wfb(facts_f):
